@@ -64,6 +64,15 @@ def std_path_checks(res, I, S, outs, model_fn, want_return=True):
             elif verdict == "unknown":
                 res["inconclusive"].append("obligation undecided: " + desc)
         rets.append(o)
+    # vacuity witness: at least one returning path must be satisfiable
+    wit = 0
+    for o in rets:
+        if S.check(o.st.pc, timeout_ms=20000) == "sat":
+            wit += 1
+            break
+    res["witness"] = wit
+    if want_return and wit == 0:
+        res["inconclusive"].append("vacuous: no satisfiable returning path")
     return rets
 
 
